@@ -448,9 +448,9 @@ def run(ctx):
         n_exh = len(exh)
         cases += exh
         cases += limit_cases(rng)
-        for _ in range(4000 if thorough else 500):
+        for _ in range(15000 if thorough else 800):
             cases.append(random_case(rng, dirty=False))
-        for _ in range(4000 if thorough else 500):
+        for _ in range(15000 if thorough else 800):
             cases.append(random_case(rng, dirty=True))
         reported = set()
         for i in range(0, len(cases), 250):
@@ -488,7 +488,7 @@ def run(ctx):
             res, problems = ex.run_scenario(ent["scenario"], ent["runs"], cosim=ent.get("cosim"))
             for p in problems:
                 ex.report(ent["scenario"], p, pipeline_relevant)
-        nscen, nsched = (70, 14) if thorough else (12, 7)
+        nscen, nsched = (180, 20) if thorough else (22, 8)
         rtx.explore(ctx, ex, ["avg", "avgmon", "avgabort"], nscen, nsched, pipeline_relevant)
         pipe = {"runs": ex.stats["runs"], "per_class": ex.stats["per_class"], "run_endings": ex.stats["ends"],
                 "oracle_kinds_hit": ex.stats["oracle_kinds"], "distinct_class_schedule_pairs": len(ex.distinct)}
